@@ -19,7 +19,7 @@ EXTENDS Naturals, Sequences, FiniteSets, TLC
 
 CONSTANT NotForwarded    \* set of channels the wrapper does NOT forward (as built: {})
 
-Channels == {"ser", "attrs", "attrs_ns", "de", "check", "check_memo", "debug", "default", "clone_shares"}
+Channels == {"ser", "ser_state", "attrs", "attrs_ns", "de", "check", "check_memo", "debug", "default", "clone_shares"}
 Forward(ch) == ch \notin NotForwarded
 
 RECURSIVE Erase(_)
@@ -61,6 +61,12 @@ HoistedAttrs(v) == CASE v.k = "wrap" -> IF Forward("attrs") THEN (IF v.inner.k =
                      [] v.k = "node" -> v.attrs
                      [] OTHER -> {}
 
+\* Serialisation has a history too: an attempt into a sink that fails part-way, then another one.  The wrapper keeps
+\* nothing between calls, so the second attempt yields what a first one would ("ser_state" \in NotForwarded models a
+\* wrapper that remembers an attempt that did not finish and refuses the next one).
+SerAgain(v) == IF v.k = "wrap" /\ ~Forward("ser_state") THEN [k |-> "refused"] ELSE Ser(v)
+SerHistTransparent(v) == SerAgain(v) = SerAgain(Erase(v))
+
 \* serialize_attributes returns the attributes AND the prefix bindings of the value (a node may be of another namespace
 \* than the struct it is flattened into: v.nsdecl = the prefixes its own type declares)
 NsDecl(v) == IF "nsdecl" \in DOMAIN v THEN v.nsdecl ELSE {}
@@ -74,4 +80,5 @@ Transparent(v) == /\ Ser(v) = Ser(Erase(v))
                   /\ HoistedAttrs(v) = HoistedAttrs(Erase(v))
                   /\ HoistedNs(v) = HoistedNs(Erase(v))
                   /\ HistTransparent(v)
+                  /\ SerHistTransparent(v)
 =======================================================================
